@@ -20,6 +20,16 @@ def Loc.hasTerm : Loc → Bool
   | .term | .pre | .tryLock | .locked | .rmFailed | .setStarted | .body _ | .bodyDone | .skipped => true
   | _ => false
 
+/-- between the end of the body and the success marker -/
+def Loc.postBody : Loc → Bool
+  | .bodyDone | .restTerm | .restInt | .sysExit | .touch => true
+  | _ => false
+
+/-- inside `handle_error` of an `except` clause or in interpreter finalisation -/
+def Loc.failing : Loc → Bool
+  | .herr _ _ | .fin _ _ => true
+  | _ => false
+
 /-- locations before the lock is taken -/
 def Loc.early : Loc → Bool
   | .init | .reg | .term | .pre | .tryLock => true
@@ -37,6 +47,10 @@ def Loc.atRmPid : Loc → Bool
 def Loc.pastTest : Loc → Bool
   | .herr .rmPid _ | .herr .relLock _ | .herr .exit _
   | .fin (some .rmPid) _ | .fin (some .relLock) _ | .fin none _ => true
+  | _ => false
+
+def Loc.isFinNone : Loc → Bool
+  | .fin none _ => true
   | _ => false
 
 def LState.holds : LState → Bool
@@ -58,19 +72,24 @@ structure Inv (cfg : Cfg) (d0 : Bool) (s : St) : Prop where
     s.sh.done = false
   handlers : ∀ i, i < s.n → ((s.procs i).loc.hasReg = true → (s.procs i).reg = true) ∧
     ((s.procs i).loc.hasTerm = true → (s.procs i).termH = true) ∧ ((s.procs i).loc.handled = true → (s.procs i).intH = true)
+  completedAt : ∀ i, i < s.n → (s.procs i).loc.postBody = true → (s.procs i).completed = true
   touchedDone : ∀ i, (s.procs i).touched = true → s.sh.done = true ∧ (s.procs i).completed = true ∧ d0 = false
   doneMono : d0 = true → s.sh.done = true
   uniqueTouch : ∀ i j, (s.procs i).touched = true → (s.procs j).touched = true → i = j
+  noWrite : ∀ i, i < s.n → (s.procs i).hnd = none → (s.procs i).loc.failing = false → (s.procs i).wroteFailed = none
+  epochLe : ∀ i e, (s.procs i).wroteFailed = some e → e ≤ s.sh.epoch
   sigBody1 : ∀ i, i < s.n → (s.procs i).sigInBody = true → (s.procs i).dead = none → (s.procs i).wroteFailed = none →
     atWrite (s.procs i) = true ∧ inBody (s.procs i) = true ∧ s.sh.lock = some (.run i) ∧ s.sh.done = false
   sigBody2 : ∀ i, i < s.n → (s.procs i).sigInBody = true → (s.procs i).wroteFailed = some s.sh.epoch →
     s.sh.failed.isSome = true ∧ s.sh.done = false ∧ (lockRunner s.sh = none ∨ lockRunner s.sh = some i)
-  sigBody3 : ∀ i, i < s.n → (s.procs i).sigInBody = true → (s.procs i).loc.afterBody = true
+  sigBody3 : ∀ i, i < s.n → (s.procs i).sigInBody = true →
+    (s.procs i).loc.afterBody = true ∧ (inBody (s.procs i) = true → (s.procs i).hnd ≠ none)
   unsig : ∀ i, i < s.n → (s.procs i).signalled = false → (s.procs i).hnd = none ∧ (s.procs i).sigInBody = false
   spawnedInv : ∀ l q, s.ls l = .spawned q → q < s.n ∧ ((s.procs q).signalled = false →
-    (s.procs q).dead = none ∧ (s.procs q).loc.early = true ∧ (s.procs q).cleaned = false)
+    (s.procs q).loc.early = true ∧ (s.procs q).cleaned = false)
   pidInv : ∀ q, q < s.n → s.sh.pid = some q → (s.procs q).signalled = false → (s.procs q).cleaned = true →
-    (s.procs q).dead = none ∧ (s.procs q).loc.atRmPid = true
+    (s.procs q).loc.atRmPid = true
+  deadLoc : ∀ q c, (s.procs q).dead = some (.code c) → (s.procs q).loc.isFinNone = true
   ownClean : cfg.unregOnSuccess = false → ∀ q, q < s.n → (s.procs q).signalled = false →
     ((s.procs q).loc ≠ .init → (s.procs q).reg = true) ∧
     ((s.procs q).loc.pastTest = true → (s.procs q).cleaned = true) ∧
@@ -80,20 +99,48 @@ theorem inv_init (cfg : Cfg) (done : Bool) (failed : Option Nat) : Inv cfg done 
   constructor <;> simp [St.init, LState.holds, lockRunner]
 
 
-/-- unfold one action completely -/
+/-- unfold one action completely; the result of the process step is named once (`hr : … = (sh', p')`) so
+    that the big `match` occurs a single time -/
 macro "unfold_act" : tactic => `(tactic| (
   simp only [act]
-  try unfold St.put
-  try unfold stepProc
-  try unfold mainStep
-  try unfold handlerStep
-  try unfold afterHandler
-  try unfold markEpoch
-  try unfold deliver
-  try unfold finStart
-  try unfold release
-  try unfold newProc
-  try unfold upd))
+  all_goals try split
+  all_goals try split
+  all_goals try unfold stepProc mainStep handlerStep afterHandler finStart release markEpoch at *
+  all_goals try unfold deliver finStart release at *
+  all_goals try unfold release
+  all_goals try unfold newProc
+  all_goals try unfold upd))
+
+/-- case analysis on the action, everything unfolded, the result of a process step named once
+    (`hr : stepProc … = (sh', p')`), then the closing tactic on every case -/
+macro "act_cases" a:ident "=>" t:tacticSeq : tactic => `(tactic| (
+  cases $a:ident with
+  | step i =>
+    simp only [act]
+    split
+    · generalize hr : stepProc _ _ _ _ = r at *
+      obtain ⟨sh', p'⟩ := r
+      unfold stepProc mainStep handlerStep afterHandler finStart release markEpoch at hr
+      simp only []
+      unfold upd
+      ($t)
+    · ($t)
+  | signal i sg =>
+    simp only [act]
+    split
+    · generalize hr : deliver _ _ _ _ = r at *
+      obtain ⟨sh', p'⟩ := r
+      unfold deliver finStart release at hr
+      simp only []
+      unfold upd
+      ($t)
+    · ($t)
+  | spawn o b => simp only [act]; unfold newProc upd; ($t)
+  | lLock l => simp only [act]; split <;> (try unfold upd) <;> ($t)
+  | lSpawn l o b => simp only [act]; split <;> (try unfold newProc upd) <;> ($t)
+  | lWrite l => simp only [act]; split <;> (try unfold upd) <;> ($t)
+  | lRelease l => simp only [act]; split <;> (try unfold release upd) <;> ($t)
+  | lDie l => simp only [act]; split <;> (try unfold release upd) <;> ($t)))
 
 theorem act_fresh (cfg : Cfg) (d0 : Bool) (s : St) (a : Act) (h : Inv cfg d0 s) :
     ∀ i, (act cfg s a).n ≤ i → (act cfg s a).procs i = {} := by
@@ -156,5 +203,100 @@ theorem act_handlers (cfg : Cfg) (d0 : Bool) (s : St) (a : Act) (h : Inv cfg d0 
   intro i
   have := h.handlers i
   cases a <;> unfold_act <;> grind [Loc.handled, Loc.inTry, Loc.hasReg, Loc.hasTerm]
+
+
+theorem act_completedAt (cfg : Cfg) (d0 : Bool) (s : St) (a : Act) (h : Inv cfg d0 s) :
+    ∀ i, i < (act cfg s a).n → ((act cfg s a).procs i).loc.postBody = true → ((act cfg s a).procs i).completed = true := by
+  intro i
+  have := h.completedAt i
+  cases a <;> unfold_act <;> grind [Loc.postBody, Loc.inTry]
+
+
+theorem act_doneMono (cfg : Cfg) (d0 : Bool) (s : St) (a : Act) (h : Inv cfg d0 s) :
+    d0 = true → (act cfg s a).sh.done = true := by
+  have := h.doneMono
+  cases a <;> unfold_act <;> grind
+
+theorem act_touchedDone (cfg : Cfg) (d0 : Bool) (s : St) (a : Act) (h : Inv cfg d0 s) :
+    ∀ i, ((act cfg s a).procs i).touched = true →
+      (act cfg s a).sh.done = true ∧ ((act cfg s a).procs i).completed = true ∧ d0 = false := by
+  intro i
+  have := h.touchedDone i
+  have := h.doneMono
+  have := h.notDone a.proc
+  have := h.completedAt a.proc
+  cases a <;> simp only [Act.proc] at * <;> unfold_act <;> grind [Loc.critical, Loc.postBody]
+
+theorem act_uniqueTouch (cfg : Cfg) (d0 : Bool) (s : St) (a : Act) (h : Inv cfg d0 s) :
+    ∀ i j, ((act cfg s a).procs i).touched = true → ((act cfg s a).procs j).touched = true → i = j := by
+  intro i j
+  have := h.uniqueTouch i j
+  have := h.touchedDone i
+  have := h.touchedDone j
+  have := h.notDone a.proc
+  have := h.fresh s.n
+  cases a <;> simp only [Act.proc] at * <;> unfold_act <;> grind [Loc.critical]
+
+theorem act_unsig (cfg : Cfg) (d0 : Bool) (s : St) (a : Act) (h : Inv cfg d0 s) :
+    ∀ i, i < (act cfg s a).n → ((act cfg s a).procs i).signalled = false →
+      ((act cfg s a).procs i).hnd = none ∧ ((act cfg s a).procs i).sigInBody = false := by
+  intro i
+  have := h.unsig i
+  cases a <;> unfold_act <;> grind
+
+theorem act_sigBody3 (cfg : Cfg) (d0 : Bool) (s : St) (a : Act) (h : Inv cfg d0 s) :
+    ∀ i, i < (act cfg s a).n → ((act cfg s a).procs i).sigInBody = true →
+      ((act cfg s a).procs i).loc.afterBody = true ∧ (inBody ((act cfg s a).procs i) = true → ((act cfg s a).procs i).hnd ≠ none) := by
+  intro i
+  have := h.sigBody3 i
+  cases a <;> unfold_act <;> grind [Loc.afterBody, Loc.inTry, inBody, noHandler]
+
+
+theorem act_noWrite (cfg : Cfg) (d0 : Bool) (s : St) (a : Act) (h : Inv cfg d0 s) :
+    ∀ i, i < (act cfg s a).n → ((act cfg s a).procs i).hnd = none → ((act cfg s a).procs i).loc.failing = false →
+      ((act cfg s a).procs i).wroteFailed = none := by
+  intro i
+  have := h.noWrite i
+  have := h.fresh s.n
+  cases a <;> unfold_act <;> grind [Loc.failing, Loc.inTry]
+
+theorem act_epochLe (cfg : Cfg) (d0 : Bool) (s : St) (a : Act) (h : Inv cfg d0 s) :
+    ∀ i e, ((act cfg s a).procs i).wroteFailed = some e → e ≤ (act cfg s a).sh.epoch := by
+  intro i e
+  have := h.epochLe i e
+  cases a <;> unfold_act <;> grind
+
+theorem act_sigBody1 (cfg : Cfg) (d0 : Bool) (s : St) (a : Act) (h : Inv cfg d0 s) :
+    ∀ i, i < (act cfg s a).n → ((act cfg s a).procs i).sigInBody = true → ((act cfg s a).procs i).dead = none →
+      ((act cfg s a).procs i).wroteFailed = none →
+      atWrite ((act cfg s a).procs i) = true ∧ inBody ((act cfg s a).procs i) = true ∧
+      (act cfg s a).sh.lock = some (.run i) ∧ (act cfg s a).sh.done = false := by
+  intro i
+  have := h.sigBody1 i
+  have := h.held i
+  have := h.notDone i
+  have := h.held a.proc
+  have := h.handlers i
+  have := h.lockLaunch
+  have := h.fresh s.n
+  cases a <;> simp only [Act.proc] at * <;> unfold_act <;>
+    grind (splits := 30) [atWrite, inBody, noHandler, Loc.holding, Loc.critical, Loc.handled, Loc.inTry, LState.holds]
+
+set_option maxHeartbeats 2000000 in
+theorem act_sigBody2 (cfg : Cfg) (d0 : Bool) (s : St) (a : Act) (h : Inv cfg d0 s) :
+    ∀ i, i < (act cfg s a).n → ((act cfg s a).procs i).sigInBody = true →
+      ((act cfg s a).procs i).wroteFailed = some (act cfg s a).sh.epoch →
+      (act cfg s a).sh.failed.isSome = true ∧ (act cfg s a).sh.done = false ∧
+      (lockRunner (act cfg s a).sh = none ∨ lockRunner (act cfg s a).sh = some i) := by
+  intro i
+  have := h.sigBody2 i
+  have := h.sigBody1 i
+  have := h.sigBody3 i
+  have := h.noWrite i
+  have := h.epochLe i
+  have := h.held a.proc
+  have := h.fresh s.n
+  cases a <;> simp only [Act.proc] at * <;> unfold_act <;>
+    grind (splits := 30) [atWrite, inBody, noHandler, Loc.holding, Loc.failing, Loc.afterBody, Loc.inTry, lockRunner]
 
 end XpmVerif.Runner
